@@ -32,7 +32,7 @@ def run(repo, rep, tier):
         "create_formatted_exception derives from (original class, "
         "RenderError) and copies args and __dict__.")
     rep.assumptions = [
-        "ExceptionFormatter's message layout is not decided",
+        "the text of the source marker lines under a frame is not decided",
         "entity-decoded expression text changes the recorded extent (known "
         "finding, see R12.2b)",
     ]
@@ -49,7 +49,13 @@ def run(repo, rep, tier):
                       "re-raises; no partial output is returned")
     rep.rule("R12.5", "the decorated exception is an instance of the "
                       "original class with the original args")
+    rep.rule("R12.6", "message layout: every recorded frame contributes its "
+                      "Expression, Filename and Location lines on every path "
+                      "through the formatter's loop, frames in recorded "
+                      "order")
     _tokenrefs(repo, rep)
+    _layout(repo, rep)
+    _handled(repo, rep)
     _source_identity(repo, rep)
     _extent(repo, rep)
     _retype(repo, rep)
@@ -275,6 +281,48 @@ def _extent(repo, rep):
                   construct="decoded-before-ref:" + what,
                   where=L.where(f, n.lineno), detail=src(n)[:90])
     rep.require_min("R12.2b", 2, "statement values and ${} candidates")
+    # the file name reported in a frame is the constant __filename of the
+    # compiled module: a module may be reused from the cache only for the
+    # very same path
+    from .c15 import full_path_in_key
+    okp, shown = full_path_in_key(repo)
+    dg = repo.func(BT + "digest")
+    rep.check(okp, "R12.2", dg.qualname, "the module cache key carries the "
+              "template's complete path, so a cached module's __filename is "
+              "the file the failing expression stands in",
+              construct="filename-in-key", where=L.where(dg),
+              detail=str(shown)[:200])
+    # whatever it does to the extent, the decoder must hand back a Token:
+    # every return value is the argument itself or the result of a method
+    # that Token overrides, called on the argument (a plain str has no
+    # position: no reference is emitted and the failure is attributed to
+    # the previously evaluated expression)
+    tok = repo.cls("chameleon.tokenize.Token")
+    keeps = set(tok.methods) - {"__new__", "__init__", "__getitem__",
+                                "location"}
+    param = dh.node.args.args[0].arg if dh.node.args.args else None
+    rets = [n for n in ast.walk(dh.node) if isinstance(n, ast.Return)]
+    bad = []
+
+    def token_valued(e):
+        if isinstance(e, ast.Name) and e.id == param:
+            return True
+        if isinstance(e, ast.IfExp):
+            return token_valued(e.body) and token_valued(e.orelse)
+        if isinstance(e, ast.Subscript):
+            return token_valued(e.value)
+        if isinstance(e, ast.Call) and isinstance(e.func, ast.Attribute) \
+                and e.func.attr in keeps:
+            return token_valued(e.func.value)
+        return False
+    for r_ in rets:
+        if r_.value is None or not token_valued(r_.value):
+            bad.append(src(r_))
+    rep.check(bool(rets) and not bad, "R12.2", dh.qualname, "entity decoding "
+              "returns a Token on every path (the argument, or a "
+              "Token-preserving method applied to it)",
+              construct="decode-keeps-token", where=L.where(dh),
+              detail="; ".join(bad)[:160])
 
 
 def _retype(repo, rep):
@@ -504,3 +552,87 @@ def _formatted(repo, rep):
     rep.check(bool(d) and src(d[-1]) == "Exception", "R12.5", site,
               "the default base is Exception", construct="base-default",
               where=wh)
+
+
+def _layout(repo, rep):
+    f = repo.func("chameleon.exc.ExceptionFormatter.__call__")
+    wh = L.where(f)
+    loops = [n for n in f.node.body if isinstance(n, ast.For)
+             and src(n.iter) == "self._errors"]
+    rep.check(len(loops) == 1, "R12.6", f.qualname, "the formatter walks the "
+              "recorded frames once, in recorded order (innermost first)",
+              construct="frames-loop", where=wh)
+    if len(loops) != 1:
+        return
+    loop = loops[0]
+    # names of the frame's fields
+    unpack = [st for st in loop.body if isinstance(st, ast.Assign)
+              and isinstance(st.targets[0], ast.Tuple)
+              and src(st.value) == src(loop.target)]
+    fields = [src(e) for e in unpack[0].targets[0].elts] if unpack else []
+    rep.check(len(fields) == 5, "R12.6", f.qualname, "a frame is (expression, "
+              "line, column, filename, exception)", construct="frame-fields",
+              where=wh, detail=str(fields))
+    if len(fields) != 5:
+        return
+    e_, l_, c_, fn_, x_ = fields
+    paths = P.enum_paths([loop], unroll=1)
+    rep.count("formatter_paths", len(paths))
+    n = 0
+    bad = ""
+    for p in paths:
+        iters = [i for i, ev in enumerate(p) if ev[0] == "loop" and ev[1] == 1]
+        if not iters:
+            continue
+        n += 1
+        seen = []
+        for c, i in P.calls_on_path(p[:iters[0]]):
+            if src(c.func).endswith(".append") and c.args and isinstance(
+                    c.args[0], ast.BinOp) and isinstance(
+                        c.args[0].op, ast.Mod) and isinstance(
+                            c.args[0].left, ast.Constant):
+                lab = str(c.args[0].left.value).strip(" -").split(":")[0]
+                seen.append((lab, src(c.args[0].right)))
+        labs = [x for x in seen if x[0] in ("Expression", "Filename",
+                                            "Location")]
+        want_l = "(%s, %s)" % (l_, c_)
+        ok = [x[0] for x in labs] == ["Expression", "Filename", "Location"] \
+            and labs[0][1] == e_ and labs[2][1] == want_l
+        if not ok and not bad:
+            bad = "%s on path %s" % (labs, P.path_text(p, 14))
+    rep.check(n >= 1 and not bad, "R12.6", f.qualname, "every frame "
+              "contributes 'Expression: <text>', 'Filename', 'Location: "
+              "(line, column)' on every path through the loop body "
+              "(including line or column 0)", construct="frame-lines",
+              where=wh, detail=bad[:300])
+
+
+def _handled(repo, rep):
+    """Frames are recorded in rcontext['__error__'] by every function the
+    exception passes.  tal:on-error ends the propagation: the frames
+    recorded so far belong to a failure that is no longer reported, and must
+    be dropped before anything else is evaluated -- or they are listed in
+    the message of the next, unrelated failure."""
+    f = repo.func(COMP + "Compiler.visit_OnError")
+    r = L.emission(repo, f.qualname)
+    handlers = [w for w in A.walk(r.emission) if isinstance(w, A.Py)
+                and w.kind == "ExceptHandler"]
+    ok = False
+    detail = "no handler"
+    for h in handlers:
+        items = [w for w in A.walk(h.f.get("body"))
+                 if isinstance(w, (A.Frag, A.Child))]
+        drop = [i for i, w in enumerate(items) if isinstance(w, A.Frag) and (
+            L.frag_find(w, "rcontext.pop('__error__', None)", "expr") or
+            L.frag_find(w, "rcontext.pop('__error__')", "expr") or
+            L.frag_find(w, "del rcontext['__error__']") or
+            L.frag_find(w, "del rcontext['__error__'][_N:]") or
+            L.frag_find(w, "rcontext['__error__'].clear()", "expr"))]
+        kid = [i for i, w in enumerate(items) if isinstance(w, A.Child)]
+        ok = bool(drop) and bool(kid) and drop[0] < kid[0]
+        detail = "handler body: %s" % [A.show(w, limit=2)[:40] for w in items]
+    rep.check(ok, "R12.4", f.qualname, "a failure handled by tal:on-error "
+              "leaves no recorded frames behind: the handler drops "
+              "rcontext['__error__'] before the fallback is rendered",
+              construct="handled-frames-dropped", where=L.where(f),
+              detail=detail[:300])
